@@ -190,9 +190,9 @@ ALIASING_BUILTINS = {"list", "sorted", "enumerate", "zip", "filter", "tuple", "s
 MUTATORS = {"append", "extend", "pop", "remove", "clear", "insert", "update", "sort", "reverse", "add", "discard",
             "add_preceding_rules", "_add_trained_m_probability", "_add_trained_u_probability", "setdefault",
             "invalidate_cache"}
-# not model state: the db api, the input tables, and the cache uid (a salt for physical table names; no result
-# depends on it).  Writes to the table cache made by the operation's own code are FCache.
-NOT_MODEL_STATE = {"_db_api", "_input_tables_dict", "_sql_dialect", "_infinity_expression", "_cache_uid"}
+# not model state: the db api and the input tables.  Writes to the table cache made by the operation's own code are
+# FCache; linker._cache_uid is the `linker_uid` key of the saved settings, hence FOther.
+NOT_MODEL_STATE = {"_db_api", "_input_tables_dict", "_sql_dialect", "_infinity_expression"}
 
 FIELDS = ["FCoreModel", "FComparisons", "FPrior", "FLevelMU", "FLevelTrained", "FLevelOther", "FBlockingRules",
           "FLinkType", "FRetainMatching", "FRetainIntermediate", "FSessions", "FOther", "FCache"]
@@ -987,7 +987,9 @@ class Translator:
         if rv is None and name in INLINE_FUNCS and INLINE_FUNCS[name] in self.ix.defs:
             return self.inline(INLINE_FUNCS[name], None, node, argvals, kwvals)
         if name in SQL_NAMES:
-            self.out.append(("Sql", self.site_id(self.tr.sites, line, name)))
+            e = ("Sql", self.site_id(self.tr.sites, line, name))
+            if e not in self.out:          # one failure point per statement
+                self.out.append(e)
             return OTHER
         if name in MUTATORS:
             if isinstance(rv, Ref):
